@@ -12,7 +12,7 @@ import struct
 
 from harness.common import outcome_of, model_outcome
 
-RULE = ("chunks (C,Z,Y,X) with C in 1..3 and axes 1..9 (quick) / 1..20 plus 64^3 (thorough); blocks from "
+RULE = ("chunks (C,Z,Y,X) with C in 1..3 and axes 1..9 (quick) / 1..14 plus 64^3 and 32-bit blocks judged by the Python oracles only (thorough); blocks from "
         "{1,2,3,4,8}^3 incl. non-cubic, larger than the chunk, not dividing it; label pools of size "
         "1,2,3,4,5,16,17,256,257,300 laid out per block region from a few sub-pools (repeated tables), "
         "values from {0,1,2^32-1,2^32,2^53+1,2^64-1,...}; hand-built edge cases first. "
@@ -189,7 +189,7 @@ def gen_case(rng, quick):
     dt = rng.choice(["uint32", "uint64"])
     C = rng.choice([1, 1, 2, 3])
     pool_size = rng.choice(POOL_SIZES)
-    hi = 9 if quick else 20
+    hi = 9 if quick else 14
     if pool_size > 5 and rng.random() < 0.7:
         # make sure a block can hold the pool
         need = pool_size
@@ -242,7 +242,10 @@ def edge_cases():
 
 # ------------------------------------------------------------------ one batch of cases
 
-def check_cases(R, cases, use_model_spec=True, kind="gen"):
+def check_cases(R, cases, model_level="full", kind="gen"):
+    """model_level: "full" = model encode + extracted spec/validator + model decode;
+    "encode" = model encode only; "none" = implementation judged by the Python
+    oracles only (chunks too large for the extracted binary's list arithmetic)."""
     import numpy as np
     # 1. model encodings
     reqs = []
@@ -251,7 +254,7 @@ def check_cases(R, cases, use_model_spec=True, kind="gen"):
         a = arr_of(cs["dt"], cs["C"], cs["shape"], cs["values"])
         arrays.append(a)
         reqs.append(enc_request(cs["dt"], cs["C"], cs["blk"], cs["shape"], a.tobytes()))
-    enc_replies = R.model.batch(reqs)
+    enc_replies = R.model.batch(reqs) if model_level != "none" else [None] * len(reqs)
 
     # 2. implementation encodings
     impl_bufs = []
@@ -265,21 +268,24 @@ def check_cases(R, cases, use_model_spec=True, kind="gen"):
     reqs2 = []
     for cs, ib in zip(cases, impl_bufs):
         if ib[0] == "ok":
-            small = use_model_spec and len(cs["values"]) * len(ib[1]) <= 6_000_000
+            small = model_level == "full" and len(cs["values"]) * len(ib[1]) <= 6_000_000
             cs["_small"] = small
             if small:
                 reqs2.append(spec_request(cs["dt"], cs["C"], cs["blk"], cs["shape"], ib[1]))
-            reqs2.append(dec_request(cs["dt"], cs["C"], cs["blk"], cs["shape"], ib[1]))
+            if model_level == "full":
+                reqs2.append(dec_request(cs["dt"], cs["C"], cs["blk"], cs["shape"], ib[1]))
     rep2 = iter(R.model.batch(reqs2))
 
     for cs, a, enc, ib, er in zip(cases, arrays, encoders, impl_bufs, enc_replies):
         case = {"dt": cs["dt"], "C": cs["C"], "shape": cs["shape"], "blk": cs["blk"],
                 "data": a.tobytes(), "note": cs.get("note", kind)}
-        mod = model_outcome(er)
         X, Y, Z = cs["shape"]
         want = canon_arr(a)
-        if ib != mod:
-            R.disagree("encode bytes vs cseg_encode", case, _short(ib), _short(mod))
+        R.count(f"model_level:{model_level}")
+        if er is not None:
+            mod = model_outcome(er)
+            if ib != mod:
+                R.disagree("encode bytes vs cseg_encode", case, _short(ib), _short(mod))
         if ib[0] != "ok":
             R.case(case, nontrivial=False)
             R.count(f"encode:{ib[0]}")
@@ -328,10 +334,11 @@ def check_cases(R, cases, use_model_spec=True, kind="gen"):
         idec = impl_arr(outcome_of(lambda: enc.decode(buf, cs["shape"])))
         if idec != ["ok", want]:
             R.violation("the package's decoder does not recover the chunk", case, {"impl": _short(idec)})
-        mdec, _guard = next(rep2)
-        mdec = model_arr(mdec, cs["dt"])
-        if mdec != idec:
-            R.disagree("decode of valid bytes vs cseg_decode", case, _short(idec), _short(mdec))
+        if model_level == "full":
+            mdec, _guard = next(rep2)
+            mdec = model_arr(mdec, cs["dt"])
+            if mdec != idec:
+                R.disagree("decode of valid bytes vs cseg_decode", case, _short(idec), _short(mdec))
 
 
 def _short(o):
@@ -356,28 +363,35 @@ def run(R):
             tiny.append({"dt": dt, "C": 1, "shape": list(shape), "blk": list(blk),
                          "values": [rng.choice([0, 1, 2 ** dt_bits(dt) - 1]) for _ in range(n)], "pool": 3})
     check_cases(R, tiny, kind="tiny")
-    n = 700 if quick else 4000
+    n = 700 if quick else 6000
     step = 140
     for i in range(0, n, step):
         check_cases(R, [gen_case(rng, quick) for _ in range(min(step, n - i))])
     if not quick:
+        # large chunks: the extracted binary's list arithmetic is quadratic in the chunk size
+        # (get4 = nth on the flat data), so these are judged by the Python oracles only
         big = []
-        for _ in range(3):
+        for _ in range(4):
             dt = rng.choice(["uint32", "uint64"])
-            blk = rng.choice([[8, 8, 8], [8, 4, 16], [64, 64, 64]])
-            shape = [64, 64, 64]
-            big.append({"dt": dt, "C": 1, "shape": shape, "blk": blk,
-                        "values": gen_values(rng, dt, 1, shape, blk, 300), "pool": 300})
-        # one block with more than 65536 labels: 32 bits
-        shape = [41, 41, 41]
-        nvox = 41 ** 3
-        vals = list(range(100, 100 + nvox))
-        vals[7] = 2 ** 64 - 1
-        vals[8] = 2 ** 53 + 1
-        rng.shuffle(vals)
-        big.append({"dt": "uint64", "C": 1, "shape": shape, "blk": [41, 41, 41], "values": vals,
-                    "pool": nvox, "note": "32-bit block"})
-        check_cases(R, big, kind="big")
+            blk = rng.choice([[8, 8, 8], [8, 4, 16], [64, 64, 64], [5, 7, 3]])
+            shape = rng.choice([[64, 64, 64], [33, 47, 20], [64, 16, 40]])
+            big.append({"dt": dt, "C": rng.choice([1, 2]), "shape": shape, "blk": blk,
+                        "values": None, "pool": 300})
+        for cs in big:
+            cs["values"] = gen_values(rng, cs["dt"], cs["C"], cs["shape"], cs["blk"], 300)
+        # blocks with more than 65536 labels: 32 bits
+        for dt, shape in (("uint64", [41, 41, 41]), ("uint32", [256, 257, 1])):
+            nvox = shape[0] * shape[1] * shape[2]
+            vals = list(range(100, 100 + nvox))
+            if dt == "uint64":
+                vals[7] = 2 ** 64 - 1
+                vals[8] = 2 ** 53 + 1
+            rng.shuffle(vals)
+            big.append({"dt": dt, "C": 1, "shape": shape, "blk": list(shape), "values": vals,
+                        "pool": nvox, "note": "32-bit block"})
+        check_cases(R, big, model_level="none", kind="big")
+        R.notes.append("chunks above ~16^3 voxels and the 32-bit blocks are judged by the Python oracles "
+                       "(independent format decoder, package decoder) only: the extracted model is too slow there")
     for w in (0, 1, 2, 4, 8, 16) + (() if quick else (32,)):
         if not R.dist.get(f"bits:{w}"):
             R.notes.append(f"generator did not produce a block with {w} bits in this run")
